@@ -49,7 +49,7 @@ SELFTEST_TASK = ('toggle',)
 
 
 def tasks(tier, seed):
-    out = [('toggle',), ('fixed',)]
+    out = [('toggle',), ('fixed',), ('subclasses',), ('generations',)]
     for legacy in (False, True):
         for lo in range(-70000, 70001, 10000):
             out.append(('dense', legacy, lo, min(70001, lo + 10000)))
@@ -435,6 +435,152 @@ def check_toggle(ctx):
                                   want.hex(), got.hex())
 
 
+def check_subclasses(ctx):
+    """Integers that are instances of int SUBCLASSES (IntEnum members, a
+    plain subclass) and containers that are dict / list subclasses: for
+    every sequence of switch settings of length <= 4, with brand-new classes
+    per sequence (so that whatever the library remembers per type is cold
+    and first filled under the first setting of the sequence), every value is
+    encoded after every setting and must follow the ladder of THAT setting.
+    A refusal (TypeError) of a subclass instance is not judged."""
+    import collections
+    import enum
+    e = lib.pamqp().encode
+    values = [40000, 3000000000, 5, -129, 65535, 2**31]
+    for length in (1, 2, 3, 4):
+        for seq in itertools.product((True, False), repeat=length):
+            Enum = enum.IntEnum('Enum', {'M%d' % i: v for i, v in
+                                         enumerate(values)})
+            Mine = type('Mine', (int,), {})
+            Table = type('Table', (collections.OrderedDict,), {})
+            Array = type('Array', (list,), {})
+            groups = [('IntEnum member', list(Enum)),
+                      ('int subclass', [Mine(v) for v in values])]
+            for step, legacy in enumerate(seq):
+                set_switch(legacy)
+                for label, members in groups:
+                    builds = [('value', e.encode_table_value,
+                               lambda v: v, lambda n: refcodec.enc_value(
+                                   n, legacy)),
+                              ('table_integer', e.table_integer,
+                               lambda v: v, lambda n: refcodec.enc_value(
+                                   n, legacy)),
+                              ('array', e.field_array, lambda v: [v, [v]],
+                               lambda n: refcodec.enc_array([n, [n]],
+                                                            legacy)),
+                              ('table subclass', e.field_table,
+                               lambda v: Table(k=v, a=Array([v])),
+                               lambda n: refcodec.enc_table(
+                                   {'k': n, 'a': [n]}, legacy))]
+                    for v in members:
+                        for pos, func, wrap, ref in builds:
+                            ctx.case(('sub', seq, step, label, int(v), pos),
+                                     True, sample=lambda: {
+                                         'switch_settings': list(seq[:step +
+                                                                     1]),
+                                         'value': '%s %d' % (label, int(v)),
+                                         'position': pos})
+                            try:
+                                got = func(wrap(v))
+                                ctx.calls()
+                            except TypeError:
+                                ctx.outcome('subclass-refused')
+                                continue
+                            except Exception as exc:  # noqa
+                                got = repr(exc).encode()
+                            ctx.valid()
+                            want = ref(int(v))
+                            if got != want:
+                                ctx.outcome('wrong-type')
+                                ctx.violation(
+                                    'ladder-subclass|{}|{}|{}|{}|{}'.format(
+                                        seq, step, label, int(v), pos),
+                                    'switch set to {} in turn (classes first '
+                                    'seen under {}): {} {} at {} encodes as '
+                                    '{} but the ladder for legacy={} gives '
+                                    '{}'.format(list(seq[:step + 1]), seq[0],
+                                                label, int(v), pos,
+                                                got.hex()[:60], legacy,
+                                                want.hex()[:60]),
+                                    {'kind': 'subclasses'}, want.hex()[:200],
+                                    got.hex()[:200])
+                            else:
+                                ctx.outcome('ok')
+    set_switch(False)
+
+
+PROBES = [40000, 65535, 32768, 3000000000, 2**31, 2**32 - 1]
+
+
+def check_generations(ctx):
+    """The N-th call: one long continuous history that contains, for every
+    N of a dense range, the pattern  encode the probes; encode N integers
+    never seen before; change the switch; encode the probes again  (a memo of
+    integer encodings that survives a change of the switch in some older
+    generation / after some number of entries shows here).  Every encode in
+    the history is compared with the reference ladder of the current
+    setting."""
+    e = lib.pamqp().encode
+    top = 1100 if ctx.tier == 'thorough' else 600
+    legacy = False
+    set_switch(False)
+    filler = 1 << 20
+    for n in list(range(0, top)) + [2000, 4096, 5000]:
+        for phase in ('probe', 'fill', 'toggle', 'probe', 'probe-array'):
+            if phase == 'fill':
+                # distinct values on both sides of the ladder rungs
+                for k in range(n):
+                    v = (filler + k) if k % 2 else 33000 + ((filler + k) %
+                                                            32000)
+                    got = e.table_integer(v)
+                    if got != refcodec.enc_value(v, legacy):
+                        ctx.violation('generations|fill|%d|%d' % (n, v),
+                                      'history of distinct integers: %d '
+                                      'encodes as %s under legacy=%s' % (
+                                          v, got.hex(), legacy),
+                                      {'kind': 'generations'},
+                                      refcodec.enc_value(v, legacy).hex(),
+                                      got.hex())
+                        return
+                filler += n
+                ctx.calls(n)
+                continue
+            if phase == 'toggle':
+                legacy = not legacy
+                if n % 3 == 0:
+                    set_switch(legacy)
+                elif legacy:
+                    e.support_deprecated_rabbitmq()
+                else:
+                    e.support_deprecated_rabbitmq(False)
+                continue
+            ctx.case(('gen', n, phase, legacy), True, sample=lambda: {
+                'distinct_integers_between_probe_and_switch': n,
+                'legacy': legacy})
+            ctx.valid()
+            if phase == 'probe':
+                got = b''.join(e.table_integer(v) for v in PROBES)
+                want = b''.join(refcodec.enc_value(v, legacy)
+                                for v in PROBES)
+            else:
+                got = e.field_array([PROBES, {'k': PROBES[0]}])
+                want = refcodec.enc_array([PROBES, {'k': PROBES[0]}], legacy)
+            ctx.calls()
+            if got != want:
+                ctx.outcome('wrong-type')
+                ctx.violation('generations|%d|%s' % (n, phase),
+                              'probes encoded, then %d integers never seen '
+                              'before, then the switch set to %s: the probes '
+                              'now encode as %s but the ladder gives %s' % (
+                                  n, legacy, got.hex()[:80], want.hex()[:80]),
+                              {'kind': 'generations'}, want.hex()[:200],
+                              got.hex()[:200])
+                set_switch(False)
+                return
+            ctx.outcome('ok')
+    set_switch(False)
+
+
 FIXED = [('short_int', -2**15, 2**15 - 1, '>h'),
          ('short_uint', 0, 2**16 - 1, '>H'),
          ('long_int', -2**31, 2**31 - 1, '>l'),
@@ -489,6 +635,10 @@ def run(task, ctx):
     try:
         if task[0] == 'toggle':
             check_toggle(ctx)
+        elif task[0] == 'subclasses':
+            check_subclasses(ctx)
+        elif task[0] == 'generations':
+            check_generations(ctx)
         elif task[0] == 'fixed':
             set_switch(False)
             check_fixed(ctx)
@@ -522,6 +672,10 @@ def replay(case, ctx):
         elif case['kind'] == 'array':
             set_switch(case['legacy'])
             observe_arrays(ctx, case['legacy'])
+        elif case['kind'] == 'subclasses':
+            check_subclasses(ctx)
+        elif case['kind'] == 'generations':
+            check_generations(ctx)
         elif case['kind'] == 'fixed':
             check_fixed(ctx)
             ctx.violations = [v for v in ctx.violations if v['case'] == case]
